@@ -431,7 +431,7 @@ func c15Documents(c *sim.Case) {
 	defer h.w.Close()
 	odd := func(label string) string {
 		return sim.PickStr(c, label, "null", "[]", "{}", "1", `"x"`, "", "{", `{"authorization_endpoint":5}`, `{"jwks_uri":null,"token_endpoint":[],"authorization_endpoint":{}}`,
-			`{"keys":null}`, `{"keys":[null]}`, `{"keys":[{}]}`, `{"keys":[{"kty":"RSA"}]}`, `{"keys":[{"kty":"EC","crv":"P-256","x":"AA","y":"AA","kid":"ec-0"}]}`, `{"keys":{}}`, `{"keys":[1,"a"]}`,
+			`{"keys":[]}`, `{"keys":[ ]}`, `{"keys":null}`, `{"keys":[null]}`, `{"keys":[{}]}`, `{"keys":[{"kty":"RSA"}]}`, `{"keys":[{"kty":"EC","crv":"P-256","x":"AA","y":"AA","kid":"ec-0"}]}`, `{"keys":{}}`, `{"keys":[1,"a"]}`,
 			`{"issuer":"x","authorization_endpoint":"","token_endpoint":"","jwks_uri":""}`, `{"authorization_endpoint":"http://`+h.w.IdP.Host+`/auth","token_endpoint":"::","jwks_uri":"%zz"}`)
 	}
 	if sim.Bool(c, "odd-discovery") {
@@ -444,7 +444,23 @@ func c15Documents(c *sim.Case) {
 		h.w.IdP.JWKSBody = &s
 		c.Logf("jwks document: %s", s)
 	}
+	if sim.Weighted(c, "token-header", 2, 1) == 1 {
+		// ID tokens whose header says less (no kid, no typ) or odd things about the key: which key verifies them is then
+		// the verifier's guess, and the published key set may be empty, short or junk
+		hdr := []map[string]any{{}, {"kid": nil}, {"kid": ""}, {"kid": 7}, {"kid": []any{"a"}}, {"typ": nil, "kid": "unknown"}, {"jwk": map[string]any{}}, {"x5c": []any{}}}[sim.Pick(c, "token-header.kind", 8)]
+		h.w.IdP.Default = &sim.Behaviour{Name: "odd-token-header", Mutate: func(p *sim.IdP, _ string, cl map[string]any, _ *sim.TokenCall) string {
+			alg := p.SignKey.DefaultAlg()
+			full := map[string]any{"alg": alg}
+			for k, v := range hdr {
+				full[k] = v
+			}
+			return sim.Compact(full, cl, p.SignKey, alg)
+		}}
+		c.Logf("ID token header members besides alg: %v", hdr)
+	}
 	h.exec(&op{K: "login", B: 0, Target: "/a"})
+	h.exec(&op{K: "nav", B: 0, Target: "/a"})
+	h.exec(&op{K: "advance", B: 0, Rel: "idexp", D: time.Second})
 	h.exec(&op{K: "nav", B: 0, Target: "/a"})
 	h.exec(&op{K: "logout", B: 0})
 	c.NonTrivial()
